@@ -42,7 +42,7 @@ class St:
         cs = [z3.ULT(self.now, 1 << 40), z3.UGE(self.cas_id, 1), z3.ULT(self.cas_id, 1 << 62)]
         for i in range(self.K):
             cs += [z3.Implies(self.present[i], z3.And(self.cas[i] != 0, z3.ULE(self.ts[i], self.now)))]
-            cs += [z3.ULT(vlen(self.val[i]), 1 << 32)]
+            cs += [z3.ULT(vlen(self.val[i]), 1 << 31)]   # stated bound: stored values shorter than 2 GiB
         return cs
 
     def live(self, i, now=None):
